@@ -163,11 +163,12 @@ Definition records_out_K2 := records_out k2_cmp k2_mk.
 (* one row per FixedStructType, regenerated into Gen/FixedStructTables.v:
    size(), offset_tv(), size_tv() are the compiled constants; the four last fields say which
    bytes of the time field hold seconds and microseconds (little-endian two's complement),
-   found by probing tv_pair_from_buffer with one-hot buffers (usec_len = 0: none).          *)
+   found by probing tv_pair_from_buffer with one-hot buffers (usec_len = 0: none;
+   sec_signed: an all-0xFF field decodes to negative seconds).                              *)
 Record layout : Type := mklayout {
   l_name : list N;        (* ASCII of the variant name *)
   l_size : N; l_offset_tv : N; l_size_tv : N;
-  l_sec_off : N; l_sec_len : N; l_usec_off : N; l_usec_len : N
+  l_sec_off : N; l_sec_len : N; l_sec_signed : bool; l_usec_off : N; l_usec_len : N
 }.
 
 Fixpoint le_unsigned (bs : list N) : N :=
@@ -183,7 +184,8 @@ Definition slice (off len : N) (bs : list N) : list N :=
 (* tv_pair_from_buffer on the time field of an entry *)
 Definition decode_tv (l : layout) (entry : list N) : tv :=
   let f := slice (l_offset_tv l) (l_size_tv l) entry in
-  (le_signed (slice (l_sec_off l) (l_sec_len l) f),
+  ((if l_sec_signed l then le_signed (slice (l_sec_off l) (l_sec_len l) f)
+    else Z.of_N (le_unsigned (slice (l_sec_off l) (l_sec_len l) f))),
    if l_usec_len l =? 0 then 0%Z else le_signed (slice (l_usec_off l) (l_usec_len l) f)).
 
 (* the entries of a file of this layout *)
